@@ -90,6 +90,14 @@ PROPS = {
           "<= H, nothing of H+1); after resuming to the tip ledger dump == D[tip]. quick: 40 points per chain (a third of them around COMMIT / sync-height writes); thorough: ALL points of each chain. "
           "Non-trivial = the interrupted block issues >= 3 write statements; distinct by (chain, journal mode, call, before/after, mode).",
           quick=(8, 1), thorough=(16, 1), timeout=(900, 3300), shrinktime="20s", disk_scratch=True),
+ "C18": P("TestC18", "exploration",
+          "controlled schedules: rapid generates 2.0.5 (PIP-10) and 2.0.2 chains and 2-10 pause points = SQL call ordinals of the sync goroutine (two thirds around BEGIN / the sync-height writes / COMMIT, "
+          "before or after the call), each with 1-3 API calls (get-sync-status, get-pegnet-issuance, get-pegnet-balances, get-rich-list over all assets, get-global-rich-list, get-pegnet-rates, "
+          "get-transaction-status, get-miner-distribution) served by the REAL JSON-RPC server on loopback while the sync goroutine is held inside the SQL hook. Oracles: (1) final ledger dump == dump of the run "
+          "without API calls; (2) every successful response equals what the reference per-height state implies for the LAST COMMITTED height (syncheight, issuance, balances, rich-list amounts, latest rates, "
+          "statuses); error responses are counted, not violations; (3) the daemon reaches the tip. soak: 2 (quick) / 12 (thorough) chains synced with 6 goroutines hammering the API, binary built with -race: "
+          "any race report whose accessing frames are pegnetd code is a violation; final dump == reference. Non-trivial = at least one call served while a block transaction is open; distinct by (chain, schedule).",
+          quick=(8, 6), thorough=(16, 120), timeout=(900, 3300), race=True, shrinktime="30s"),
 }
 
 ALL = ["C%02d" % i for i in range(1, 21)]
@@ -125,6 +133,9 @@ TEXT = {
  "C02": {"technique": "crash-point enumeration (SIGKILL of a child daemon at every SQL call, before/after; injected statement failure) over rapid-generated chains; prefix-state equality and resume equality against a reference run",
          "level_text": "Fault enumeration: thorough kills a real daemon process at every SQL call (before and after, about 5,000 points per chain incl. the error mode) of 16 generated chains in both journal modes; quick samples 40 points per chain on 8 chains with the calls around COMMIT always included.",
          "level_note": "SIGKILL models process death, not power loss (the OS page cache survives). Child databases live on real disk under /verif/.build and are removed after each point. Statement failures inside NullifyBurnAddress are a registered known finding of C10 (error swallowed by design) and excluded from the 'a block fails' mode."},
+ "C18": {"technique": "property-based testing of schedules (rapid chooses pause points at SQL-call granularity and API calls against the real server); differential vs. run without API load and vs. per-height committed states; race-detector soak",
+         "level_text": "Exploration: the harness owns the schedule at SQL-statement granularity (the sync goroutine is parked inside a driver hook while real API requests are served) and samples below that with a -race build under free-running load.",
+         "level_note": "Not exhaustive over interleavings: a race that needs an instruction-level interleaving and leaves no unsynchronised access for the detector would be missed. Error responses (e.g. database is locked, handler panics turned into internal errors) are counted, not violations: the statement constrains what a response reflects, not availability."},
 }
 
 _BUILT = set(PROPS)
